@@ -3,6 +3,7 @@ from .. import terms as T
 from .. import symex as SX
 from ..terms import sym, fld
 from .common import *
+from .common import Proxy, share
 from .C12 import CB_OPAQUE, DRV_OPAQUE
 
 TH = sym('this')
@@ -186,9 +187,16 @@ def check(ctx):
             from .. import algebra
             ok = newmode == want
             if not ok:
-                # accept equivalent nestings
-                ok = T.subst(newmode, {('!=', rank, T.ZERO): T.TRUE, ('!=', cbm, silent): T.TRUE}) == silent and \
-                    T.subst(newmode, {('!=', rank, T.ZERO): T.FALSE}) == cbm
+                # decide by cases on (mode == silent, rank == 0), whatever the nesting / orientation
+                def case(eq_silent, eq_root):
+                    m = {}
+                    for a, b, v in ((cbm, silent, eq_silent), (rank, T.ZERO, eq_root)):
+                        for x, y in ((a, b), (b, a)):
+                            m[('==', x, y)] = T.TRUE if v else T.FALSE
+                            m[('!=', x, y)] = T.FALSE if v else T.TRUE
+                    return T.subst(newmode, m)
+                ok = case(True, True) in (cbm, silent) and case(True, False) in (cbm, silent) and \
+                    case(False, True) == cbm and case(False, False) == silent
             other = [n_ for n_, v in T.obj_fields(fld(th, 'callback_')).items() if n_ != 'mode_'] \
                 if isinstance(fld(th, 'callback_'), tuple) and fld(th, 'callback_')[0] == 'obj' else []
             if ok and not other:
@@ -199,3 +207,6 @@ def check(ctx):
                               'other than silencing non-root ranks', {'mode_after': T.pretty(newmode)[:300],
                                                                       'other_members': other})
         ctx.guard('R4', fsite(f), r4)
+    # the decision returned by mpi_callback must be the inner callback's decision on every rank and
+    # in every mode (otherwise the run depends on the mode: silent never asks for the rank)
+    share(ctx, 'C12', 'R4/C12.', ['R4.'])
